@@ -984,3 +984,95 @@ func valueName(v ssa.Value) string {
 	}
 	return ""
 }
+
+// ---------------------------------------------------------------------------
+// reset summaries: a helper that (re)initialises a field on every path counts
+// as a store of that field at its call sites ("treat a wrapper as the thing it
+// wraps when all its paths do it").
+
+type resetInfo struct{ all, cond bool }
+
+var resetMemo = map[*Loaded]map[*types.Var]map[*ssa.Function]resetInfo{}
+
+// resetters computes, for field f, the module functions every return of which
+// has stored f (all), or has stored f unless it went through an
+// index-disabled edge (cond).  Fixpoint over direct calls, depth-bounded.
+func (l *Loaded) resetters(f *types.Var) map[*ssa.Function]resetInfo {
+	if m, ok := resetMemo[l][f]; ok {
+		return m
+	}
+	if resetMemo[l] == nil {
+		resetMemo[l] = map[*types.Var]map[*ssa.Function]resetInfo{}
+	}
+	res := map[*ssa.Function]resetInfo{}
+	resetMemo[l][f] = res
+	for round := 0; round < 4; round++ {
+		changed := false
+		for _, fn := range l.SrcFuncs {
+			if !l.inModule(fn) || fn.Blocks == nil {
+				continue
+			}
+			gen := func(cond bool) func(ssa.Instruction) bool {
+				return func(in ssa.Instruction) bool {
+					if isStoreToField(in, f) {
+						return true
+					}
+					if cc := callCommon(in); cc != nil {
+						if g := staticCallee(cc); g != nil && g != fn {
+							if ri, ok := res[g]; ok && (ri.all || cond && ri.cond) {
+								return true
+							}
+						}
+					}
+					return false
+				}
+			}
+			has := false
+			allInstrs(fn, func(in ssa.Instruction) {
+				if gen(true)(in) {
+					has = true
+				}
+			})
+			if !has {
+				continue
+			}
+			qa := mustState(fn, false, gen(false), nil)
+			qc := mustStateE(fn, false, gen(true), nil, fastDisabledEdge)
+			ri := resetInfo{true, true}
+			for _, r := range returnsOf(fn) {
+				if isRecoverReturn(r) {
+					continue
+				}
+				ri.all = ri.all && qa(r)
+				ri.cond = ri.cond && qc(r)
+			}
+			if (ri.all || ri.cond) && res[fn] != ri {
+				res[fn] = ri
+				changed = true
+			}
+		}
+		if !changed {
+			break
+		}
+	}
+	return res
+}
+
+// storeOrReset: instruction stores field f or calls a function that resets it
+// on every path (cond: on every path on which the fast index is enabled).
+func (l *Loaded) storeOrReset(f *types.Var, cond bool) func(ssa.Instruction) bool {
+	rs := l.resetters(f)
+	return func(in ssa.Instruction) bool {
+		if isStoreToField(in, f) {
+			return true
+		}
+		if cc := callCommon(in); cc != nil {
+			if g := staticCallee(cc); g != nil {
+				if ri, ok := rs[g]; ok && (ri.all || cond && ri.cond) {
+					return true
+				}
+			}
+		}
+		return false
+	}
+}
